@@ -378,6 +378,137 @@ func genC20Free(rep *Report, c *c20Env, id *int) []string {
 	return texts
 }
 
+// ---- free lane, ONE long-lived handler while the on-chain whitelist changes ----
+// The match handler is constructed once per application; between two consultations the whitelist
+// may change (UpdateParams) at the SAME block height or at a later one.  Every decision must be
+// the table's answer for the whitelist that is on chain at that moment.
+func genC20FreeLongLived(rep *Report, c *c20Env, seed uint64, tier string, id *int) []string {
+	e := c.e
+	r := NewRng(seed*7919 + 23)
+	users := []*Account{e.User(1), e.User(2), e.User(3), e.User(4)}
+	handler := opchildlanes.NewFreeLaneMatchHandler(e.AK.AddressCodec(), e.K).MatchHandler() // once
+	live, _ := e.Ctx.CacheContext()
+	var cur []string // the harness's own record of what it wrote
+	var history []string
+	setWL := func(wl []string) {
+		ps, err := e.K.GetParams(live)
+		if err != nil {
+			panic(err)
+		}
+		ps.FeeWhitelist = append([]string{}, wl...)
+		if err := e.K.SetParams(live, ps); err != nil {
+			panic(err)
+		}
+		cur = wl
+		history = append(history, fmt.Sprintf("height %d: UpdateParams fee_whitelist := %v", live.BlockHeight(), accNames(e, wl)))
+		rep.Hist("free-long-lived:whitelist-change")
+	}
+	var texts []string
+	match := func(signer, payer, granter *Account) {
+		*id++
+		b := e.Enc.TxConfig.NewTxBuilder()
+		if err := b.SetMsgs(&banktypes.MsgSend{FromAddress: signer.Str, ToAddress: users[3].Str, Amount: sdk.NewCoins(sdk.NewInt64Coin(c.sc.Native, 1))}); err != nil {
+			panic(err)
+		}
+		p := signer
+		if payer != nil {
+			b.SetFeePayer(payer.Addr)
+			p = payer
+		}
+		gs := ""
+		if granter != nil {
+			b.SetFeeGranter(granter.Addr)
+			gs = granter.Str
+		}
+		got := handler(live, b.GetTx())
+		want := false
+		for _, a := range cur {
+			if a == p.Str || a == gs {
+				want = true
+			}
+		}
+		history = append(history, fmt.Sprintf("height %d: match signer=%d fee_payer=%v granter=%v -> %v", live.BlockHeight(), signer.ID, accID(payer), accID(granter), got))
+		rep.Hist(fmt.Sprintf("free-long-lived:match:%v", got))
+		if got != want {
+			n := len(history)
+			from := 0
+			if n > 12 {
+				from = n - 12
+			}
+			rep.Violate(Violation{Case: *id, Step: n - 1, Sig: "C20:free-lane-stale",
+				What: fmt.Sprintf("a long-lived free-lane handler answered %v, the whitelist on chain at that moment (%v) says %v", got, accNames(e, cur), want),
+				Ops:  append([]string{"one FreeLaneMatchHandler instance for the whole sequence (last steps):"}, history[from:]...)})
+		}
+		var items []string
+		for _, a := range cur {
+			items = append(items, coqStr(a))
+		}
+		gCoq := "None"
+		if granter != nil {
+			gCoq = "(Some " + coqStr(granter.Str) + ")"
+		}
+		text := laneCaseText(*id, fmt.Sprintf("LFree (Some %s) %s %s", coqList(items), coqStr(p.Str), gCoq), []Ov{obool(got)})
+		rep.CountCase(text, true)
+		rep.Ops++
+		texts = append(texts, text)
+	}
+	A, B, C := users[0], users[1], users[2]
+	// scripted: consult, change at the same height, consult again
+	setWL([]string{A.Str})
+	match(A, nil, nil)
+	setWL([]string{})
+	match(A, nil, nil) // no longer exempt
+	setWL([]string{C.Str})
+	match(B, C, nil) // exempt now
+	match(A, nil, C)
+	setWL([]string{A.Str, B.Str})
+	match(B, C, nil)
+	nSteps := 80
+	if tier == "thorough" {
+		nSteps = 2000
+	}
+	pick := func(allowNil bool) *Account {
+		if allowNil && r.Chance(45) {
+			return nil
+		}
+		return users[r.Intn(len(users))]
+	}
+	for k := 0; k < nSteps; k++ {
+		switch r.Weighted([]int{35, 20, 45}) {
+		case 0:
+			var wl []string
+			for _, u := range users {
+				if r.Chance(40) {
+					wl = append(wl, u.Str)
+				}
+			}
+			setWL(wl)
+		case 1:
+			live = live.WithBlockHeight(live.BlockHeight() + 1 + int64(r.Intn(2)))
+			history = append(history, fmt.Sprintf("new block height %d", live.BlockHeight()))
+		}
+		for n := 1 + r.Intn(2); n > 0; n-- {
+			match(users[r.Intn(2)], pick(true), pick(true))
+		}
+	}
+	rep.Notes = append(rep.Notes, fmt.Sprintf("free lane, long-lived: ONE handler instance over %d steps of whitelist changes (through Keeper.SetParams) at the same and at later block heights, each followed by matches checked against the whitelist on chain at that moment", nSteps+5))
+	return texts
+}
+
+func accNames(e *L2Env, wl []string) []string {
+	out := []string{}
+	for _, a := range wl {
+		name := a
+		for _, u := range e.Users {
+			if u.Str == a {
+				name = fmt.Sprintf("user%d", u.ID)
+			}
+		}
+		out = append(out, name)
+	}
+	return out
+}
+
 func accID(a *Account) interface{} {
 	if a == nil {
 		return "none"
@@ -445,7 +576,7 @@ func genC20Redundant(rep *Report, c *c20Env, seed uint64, tier string, id *int) 
 	if tier == "thorough" {
 		nRandom = 6000
 	}
-	for k := 0; k < nRandom; k++ {
+	randList := func(next uint64) []c20Shape {
 		var l []c20Shape
 		cur := next
 		n := 1 + r.Intn(6)
@@ -467,7 +598,10 @@ func genC20Redundant(rep *Report, c *c20Env, seed uint64, tier string, id *int) 
 				l = append(l, dep(false, 1+uint64(r.Intn(int(cur))), r.Intn(3)))
 			}
 		}
-		lists = append(lists, l)
+		return l
+	}
+	for k := 0; k < nRandom; k++ {
+		lists = append(lists, randList(next))
 	}
 	dec := opchildante.NewRedundantBridgeDecorator(e.K)
 	type modeT struct {
@@ -479,7 +613,7 @@ func genC20Redundant(rep *Report, c *c20Env, seed uint64, tier string, id *int) 
 	modes := []modeT{{"check", true, false, false}, {"recheck", true, true, false}, {"deliver", false, false, false},
 		{"check+simulate", true, false, true}, {"recheck+simulate", true, true, true}, {"deliver+simulate", false, false, true}}
 	var texts []string
-	for _, l := range lists {
+	evalList := func(base sdk.Context, next uint64, l []c20Shape, longLived bool) {
 		*id++
 		canon := shapesCoq(l)
 		tx := c.tx(l, nil, nil)
@@ -498,7 +632,7 @@ func genC20Redundant(rep *Report, c *c20Env, seed uint64, tier string, id *int) 
 		var obs []Ov
 		someRej, somePass := false, false
 		for mi, m := range modes {
-			ctx, _ := e.Ctx.CacheContext()
+			ctx, _ := base.CacheContext()
 			ctx = ctx.WithEventManager(sdk.NewEventManager())
 			if m.recheck {
 				ctx = ctx.WithIsReCheckTx(true)
@@ -527,12 +661,16 @@ func genC20Redundant(rep *Report, c *c20Env, seed uint64, tier string, id *int) 
 				}
 			}()
 			obs = append(obs, OS{class})
-			rep.Hist("red:" + m.name + ":" + class)
+			if longLived {
+				rep.Hist("red-long-lived:" + m.name + ":" + class)
+			} else {
+				rep.Hist("red:" + m.name + ":" + class)
+			}
 			rep.Ops++
 			active := m.check && !m.simulate
 			viol := func(sig, what string) {
 				rep.Violate(Violation{Case: *id, Step: mi, What: what, Sig: sig,
-					Ops: []string{fmt.Sprintf("next expected L1 sequence = %d", next), "mode = " + m.name, "messages = " + canon}})
+					Ops: []string{fmt.Sprintf("next expected L1 sequence = %d (long-lived decorator instance, sequence advanced between calls: %v)", next, longLived), "mode = " + m.name, "messages = " + canon}})
 			}
 			switch {
 			case class == "SWALLOWED":
@@ -559,7 +697,34 @@ func genC20Redundant(rep *Report, c *c20Env, seed uint64, tier string, id *int) 
 		}
 		texts = append(texts, text)
 	}
+	for _, l := range lists {
+		evalList(e.Ctx, next, l, false)
+	}
+	// the same decorator instance while the chain moves on: deposits are processed between the calls
+	// (a decision may depend only on the CURRENT next sequence)
+	nSteps := 60
+	if tier == "thorough" {
+		nSteps = 1200
+	}
+	live, _ := e.Ctx.CacheContext()
+	cur := next
+	for k := 0; k < nSteps; k++ {
+		evalList(live, cur, randList(cur), true)
+		if r.Chance(30) {
+			live = live.WithBlockHeight(live.BlockHeight() + 1)
+		}
+		for n := r.Intn(3); n > 0; n-- {
+			res := execAtomic(live, func(ctx sdk.Context) (interface{}, error) {
+				return e.Msg.FinalizeTokenDeposit(ctx, c.real(dep(true, cur, 0)).(*opchildtypes.MsgFinalizeTokenDeposit))
+			})
+			if !res.OK {
+				panic("c20: deposit between decorator calls failed: " + res.Err)
+			}
+			cur++
+		}
+	}
 	rep.Exhaustive = true
+	rep.Notes = append(rep.Notes, fmt.Sprintf("redundancy, long-lived: %d further calls of the SAME decorator instance with 0-2 deposits processed (and sometimes a new block height) between calls", nSteps))
 	rep.Notes = append(rep.Notes, fmt.Sprintf("redundancy: exhaustive over all lists of <= %d deposit messages from {stale 1, stale 2, next 3, 4, ahead 5, invalid@3, invalid@1}, each plain and with %d random interleavings of other messages, in 6 mode combinations", maxLen, nMixed))
 	return texts
 }
@@ -572,6 +737,7 @@ func genC20Lanes(rep *Report, seed uint64, tier string, outdir string) {
 	var texts []string
 	texts = append(texts, genC20System(rep, c, seed, tier, &id)...)
 	texts = append(texts, genC20Free(rep, c, &id)...)
+	texts = append(texts, genC20FreeLongLived(rep, c, seed, tier, &id)...)
 	texts = append(texts, genC20Redundant(rep, c, seed, tier, &id)...)
 	writeShards(outdir, "C20lanes", laneCaseHeader, "run_lanecase", "lanecase", texts, 8, rep)
 }
